@@ -1,36 +1,43 @@
 package hermes
 
+import "strings"
+
 // C05: every record has as many fields as the output configuration has columns,
 // for every kind of model variable a column can be bound to.
 
 func init() {
 	vRegister("zzC05Fields", func(a []int) { zzC05Fields(a[0], a[1]) })
+	vRegister("zzC05EmptyFields", func(a []int) { zzC05EmptyFields(a[0]) })
 }
 
-// native/symbolic writer that counts separators and non-empty fields
+// writer that collects what is written; the record is judged from its text, not from how many calls wrote it
 type zzFieldCounter struct {
-	seps   int
-	fields int
-	breaks int
+	text string
 }
 
-func (w *zzFieldCounter) Write(s string) (int, error) {
-	if s == "\r\n" {
-		w.breaks++
-	} else if len(s) > 0 {
-		w.fields++
+func (w *zzFieldCounter) Write(s string) (int, error)      { w.text += s; return len(s), nil }
+func (w *zzFieldCounter) WriteBytes(b []byte) (int, error) { w.text += string(b); return len(b), nil }
+func (w *zzFieldCounter) WriteRune(r rune) (int, error)    { w.text += string(r); return 1, nil }
+func (w *zzFieldCounter) WriteError(e error) (int, error)  { return 0, nil }
+func (w *zzFieldCounter) Close()                           {}
+
+// zzRecordShape: number of line breaks, of separators and of non-blank fields of the one record in text.
+// CSV: fields are the pieces between separators; fixed width: the blank-separated values.
+func zzRecordShape(text string, csv bool) (breaks, seps, fields int) {
+	breaks = strings.Count(text, "\r\n")
+	line := strings.TrimSuffix(text, "\r\n")
+	if csv {
+		seps = strings.Count(line, ",")
+		for _, f := range strings.Split(line, ",") {
+			if strings.TrimSpace(f) != "" {
+				fields++
+			}
+		}
+		return
 	}
-	return len(s), nil
+	fields = len(strings.Fields(line)) // the harness' values hold no blanks
+	return
 }
-func (w *zzFieldCounter) WriteBytes(b []byte) (int, error) { return len(b), nil }
-func (w *zzFieldCounter) WriteRune(r rune) (int, error) {
-	if r == ',' {
-		w.seps++
-	}
-	return 1, nil
-}
-func (w *zzFieldCounter) WriteError(e error) (int, error) { return 0, nil }
-func (w *zzFieldCounter) Close()                          {}
 
 // kind: the kind of variable bound to the second of three columns; format: 0 = fixed width, 1 = CSV
 func zzC05Fields(kind, format int) {
@@ -74,8 +81,34 @@ func zzC05Fields(kind, format int) {
 		return
 	}
 	vAssert("C05.fields.record_written_without_error", err == nil)
-	vAssert("C05.fields.as_many_fields_as_columns", w.fields == 3 && w.breaks == 1)
+	breaks, seps, fields := zzRecordShape(w.text, format == 1)
+	vAssert("C05.fields.as_many_fields_as_columns", fields == 3 && breaks == 1)
 	if format == 1 {
-		vAssert("C05.fields.separators_between_all_fields", w.seps == 2)
+		vAssert("C05.fields.separators_between_all_fields", seps == 2)
 	}
+}
+
+// a CSV record keeps its number of fields when values are empty texts (e.g. the id column of a run without a
+// polygon id): which = bit mask of the three columns that are bound to an empty text
+func zzC05EmptyFields(which int) {
+	g := new(GlobalVarsMain)
+	g.LAI = 3.5
+	g.N = 7
+	empty := ""
+	refs := []interface{}{&g.LAI, &g.N, &g.LAI}
+	for k := 0; k < 3; k++ {
+		if which&(1<<uint(k)) != 0 {
+			refs[k] = &empty
+		}
+	}
+	c := &OutputConfig{numDataColumns: 3, seperatorRune: ',', fillRune: ' ', formatType: csvOut, DataColumns: []OutputDataColum{
+		{FormatStr: "%v", Width: 8, valueRef: refs[0]},
+		{FormatStr: "%v", Width: 8, valueRef: refs[1]},
+		{FormatStr: "%v", Width: 8, valueRef: refs[2]}}}
+	w := &zzFieldCounter{}
+	err := c.WriteLine(w)
+	vCover("C05.emptyfields.reach")
+	breaks, seps, _ := zzRecordShape(w.text, true)
+	vAssert("C05.emptyfields.record_written_without_error", err == nil)
+	vAssert("C05.emptyfields.as_many_fields_as_columns_also_when_values_are_empty", seps == 2 && breaks == 1)
 }
